@@ -100,9 +100,11 @@ func backoffDriver(a *Args) {
 	tr.MergeInto()
 
 	// (b) the poll loop
-	patterns := []string{"FFFFFFFF", "FFFSFFF", "SFSFFS", "F"}
+	// (fourteen failures in a row: the loop's counter passes the point where the delay stops doubling - about ten
+	// seconds, side by side with the other sequences)
+	patterns := []string{"FFFFFFFF", "FFFSFFF", "SFSFFS", "F", "FFFFFFFFFFFFFF"}
 	if hx.Thorough() {
-		patterns = append(patterns, "FFFFFFFFFFFFFF", "FFFFFFFFFFFFSFF", "X")
+		patterns = append(patterns, "FFFFFFFFFFFFSFF", "X")
 	}
 	// every F/S pattern up to length 5 (enumerated by TLC), each failing call failing in one of the ways of
 	// FailKinds (rotating, so that every kind also appears as first, middle and last failure)
@@ -275,12 +277,17 @@ func backoffLoop(res *hx.Result, pattern string, pi int, tr *hx.Tracer, cfg hx.A
 		case <-agent.Done():
 		}
 	} else {
+		reached := false
 		select {
 		case <-done:
+			reached = true
 		case <-time.After(wait):
 			res.Note("pattern %s: the agent did not reach the end of the pattern within %s", pattern, wait)
 		case <-agent.Done():
 		}
+		// every delay of the loop is bounded (3.3 s at most): an agent that is alive has worked the whole pattern off
+		// long before the wait is over - one that stopped calling altogether shows here
+		tr.Emit("PatternEnd", "reached", reached, "calls", len(pattern)+1, "waited_ms", wait.Milliseconds())
 	}
 	if ex, code := agent.Exited(); ex {
 		tr.Emit("Exit", "code", code, "after_ms", time.Since(start).Milliseconds())
